@@ -27,6 +27,7 @@ FUNCS = [
     ("artifactWrite", "framework/artifact/artifact.py", "Artifact", "write"),
     ("artifactRemove", "framework/artifact/artifact.py", "Artifact", "remove"),
     ("artifactReplace", "framework/artifact/artifact.py", "Artifact", "replace"),
+    ("indexMapGetItem", "framework/randomness/index_map.py", "IndexMap", "__getitem__"),
     ("streamKey", "framework/randomness/stream.py", "RandomnessStream", "_key"),
     ("streamGetDraw", "framework/randomness/stream.py", "RandomnessStream", "get_draw"),
     ("streamFilterForProbability", "framework/randomness/stream.py", "RandomnessStream", "filter_for_probability"),
